@@ -23,6 +23,11 @@ def decide(run, recs, res, errors, theorems, module):
                "%d bitwise differences, %d beyond tolerance" % (len(res[0]), len(res[1])))
     run.oblige("specification holds on every implementation output", not res[2], "")
     broken = standard_proof_obligations(run, module, theorems)
+    # the same theorems about the methods as translated from the current peak.rs (through proofs/PeakTie.v), when that tie stands
+    if module == "C13":
+        broken += source_corollaries(run, "C13s", ['C13s_shift', 'C13s_scale_by', 'C13s_normalize_shape', 'C13s_truncate_after', 'C13s_ignore_below', 'C13s_normalize_sum', 'C13s_normalize_ratio', 'C13s_truncate_sum', 'C13s_ignore_sum'], ('peak',))
+    if module == "C14":
+        broken += source_corollaries(run, "C14s", ['C14s_drop_last', 'C14s_slice', 'C14s_peak_eq', 'C14s_fused_stepwise'], ('peak',))
     if module == "C13":
         # floating-point level: normalize in rounded arithmetic, instantiated at Coq's primitive binary64 floats
         broken += standard_proof_obligations(run, "C13f", ["C13_normalize_rounded", "C13_binary64_std", "C13_normalize_binary64", "C13_float_nonvacuous"],
